@@ -26,8 +26,4 @@ GenSpec == GenInit /\ [][GenNext]_<<stack, hist>>
 
 Emit == (Len(stack) = 1) => PrintT("BEHAVIOUR " \o ToJson([script |-> hist, bytes |-> Enc(stack[1])]))
 
-\* leaf sets for generation (all head-size boundaries; the long strings only with tiny stacks)
-GenInts == WideInts
-GenStrs == WideStrs
-GenTags == WideTags
 =============================================================================
